@@ -116,27 +116,35 @@ const RenameSuffix = "#u"
 // again. Explicit marks inside MarkPayload are data, not type keys, and are
 // left alone.
 func RenameFamilies(data []byte, unknown func(string) bool, add bool) ([]byte, error) {
+	return RenameFamiliesAndPayloads(data, unknown, add, false)
+}
+
+// RenameFamiliesAndPayloads is RenameFamilies; with payloads set, the type
+// URL of the structured payload of every renamed node is renamed as well: a
+// program that does not contain an error type does not contain the protobuf
+// message of its payload either.
+func RenameFamiliesAndPayloads(data []byte, unknown func(string) bool, add, payloads bool) ([]byte, error) {
 	enc, err := ParseWire(data)
 	if err != nil {
 		return nil, err
 	}
-	renameTree(enc, unknown, add)
+	renameTree(enc, unknown, add, payloads)
 	return enc.Marshal()
 }
 
-func renameTree(e *errorspb.EncodedError, unknown func(string) bool, add bool) {
+func renameTree(e *errorspb.EncodedError, unknown func(string) bool, add, payloads bool) {
 	var d *errorspb.EncodedErrorDetails
 	switch {
 	case e.GetWrapper() != nil:
 		w := e.GetWrapper()
 		d = &w.Details
-		renameTree(&w.Cause, unknown, add)
+		renameTree(&w.Cause, unknown, add, payloads)
 	case e.GetLeaf() != nil:
 		l := e.GetLeaf()
 		d = &l.Details
 		for _, c := range l.MultierrorCauses {
 			if c != nil {
-				renameTree(c, unknown, add)
+				renameTree(c, unknown, add, payloads)
 			}
 		}
 	default:
@@ -146,14 +154,20 @@ func renameTree(e *errorspb.EncodedError, unknown func(string) bool, add bool) {
 	if add {
 		if unknown(fam) {
 			d.ErrorTypeMark.FamilyName = fam + RenameSuffix
+			if payloads && d.FullDetails != nil && !IsEncodedErrorAny(d.FullDetails) {
+				d.FullDetails = &types.Any{TypeUrl: d.FullDetails.TypeUrl + RenameSuffix, Value: d.FullDetails.Value}
+			}
 		}
 	} else {
 		d.ErrorTypeMark.FamilyName = strings.TrimSuffix(fam, RenameSuffix)
+		if payloads && d.FullDetails != nil && strings.HasSuffix(d.FullDetails.TypeUrl, RenameSuffix) {
+			d.FullDetails = &types.Any{TypeUrl: strings.TrimSuffix(d.FullDetails.TypeUrl, RenameSuffix), Value: d.FullDetails.Value}
+		}
 	}
 	if IsEncodedErrorAny(d.FullDetails) {
 		var inner errorspb.EncodedError
 		if err := inner.Unmarshal(d.FullDetails.Value); err == nil {
-			renameTree(&inner, unknown, add)
+			renameTree(&inner, unknown, add, payloads)
 			if b, err := inner.Marshal(); err == nil {
 				d.FullDetails = &types.Any{TypeUrl: d.FullDetails.TypeUrl, Value: b}
 			}
